@@ -45,6 +45,18 @@ sc3):
                 ASSIGNED values and a fresh Env built from them; intermediate
                 objects are used only when consistent (one duration per
                 segment); the originals of copies are re-checked at the end.
+* independence  'indep' shards (vf/c19_reuse.py, run_indep): the class
+                "envelopes built with DEFAULTED arguments" - Env() with levels
+                and / or times left out or None, every standard constructor
+                with no or few arguments.  One object A is changed IN PLACE
+                (item / slice assignment, append, insert, extend, +=, pop, del,
+                sort, reverse, clear + extend on A.levels / A.times / A.curves,
+                the other attributes brought to the new segment count); a
+                second object of the same or another defaulted recipe built
+                BEFORE (encoded or not, optionally with an attribute
+                re-assigned its own value) and one built AFTER must encode and
+                evaluate as the model says for their own arguments and the
+                documented defaults; A must encode as its changed lists say.
 """
 
 import copy
@@ -82,7 +94,15 @@ RULE = ("seeded random envelope specifications: 2-12 levels (any sign / positive
         "curves 55% (name, number, list per new segment, shorter list, list "
         "of the old count, nested entry), new release / loop node 40% / 20%, "
         "assigned in a random order with uses between the assignments where "
-        "the object is consistent; non-trivial: uses of both layouts")
+        "the object is consistent; non-trivial: uses of both layouts.  indep "
+        "shards: changed object and other object from the defaulted recipes "
+        "(36% Env without levels, 14% Env(levels) without times, 8% "
+        "Env.step(), 42% a standard constructor with 0-2 arguments; the other "
+        "object 65% the same recipe), 70% with an earlier other object (half "
+        "of them encoded before the change, half re-assigned an attribute's "
+        "own value after it), the changed object encoded before the change "
+        "50%; 1-3 in-place list operations (70% include levels); non-trivial: "
+        "an earlier object exists or the change precedes the first encoding")
 ASSUMPTIONS = [
     "vf/model_env.py (EnvGen array layout, server shape numbers 0-8, -99 for "
     "absent nodes) and vf/scgf.py are the trusted base",
@@ -113,6 +133,18 @@ ASSUMPTIONS = [
     "constructor's parameter; a scalar or shorter list assigned later is not "
     "in the domain), assigned `curves` may be scalar or shorter (wrapped "
     "when the envelope is encoded)",
+    "indep shards: the defaults of Env are levels [0, 1, 0], times [1, 1] "
+    "(the triangle of the class documentation and of the signature), curves "
+    "'lin', no nodes, offset 0; the attribute lists of an Env belong to that "
+    "object (the lists handed to a constructor are deep copies made by the "
+    "harness, so no aliasing is introduced by the caller; copy.copy and the "
+    "derived envelopes of range / exprange / curverange are NOT part of these "
+    "histories - a shallow copy shares lists by definition); an in-place "
+    "change of an attribute list takes effect at the next encoding that is "
+    "computed, i.e. immediately when the object was never encoded or "
+    "evaluated, otherwise after any public attribute has been assigned "
+    "(which drops the cached formats); Env.step() (defaults not documented) "
+    "is compared with what an equal call gave before the change",
 ]
 MIN_COUNTERS = {
     'encodings_compared': 300, 'at_values_checked': 3000,
@@ -141,6 +173,24 @@ MIN_COUNTERS = {
     'reuse_respec_order_times-levels': 300,
     'reuse_start_standard_constructor': 600,
     'reuse_originals_rechecked': 800,
+    'indep_histories': 2000, 'indep_changed_objects_checked': 1500,
+    'indep_later_objects_checked': 2000,
+    'indep_earlier_objects_checked': 1200,
+    'indep_earlier_objects_first_encoded_after_change': 500,
+    'indep_earlier_objects_reassigned_own_value': 500,
+    'indep_changed_before_first_encoding': 800,
+    'indep_reassigned_own_value': 300,
+    'indep_levels_count_changed': 800, 'indep_cross_recipe': 500,
+    'indep_recipe_Env-default-levels': 600,
+    'indep_recipe_Env-default-times': 200, 'indep_recipe_step': 100,
+    **{'indep_recipe_' + c: 40 for c in (
+        'triangle', 'sine', 'perc', 'linen', 'cutoff', 'adsr', 'dadsr',
+        'asr')},
+    **{'indep_inplace_levels_' + o: 80 for o in (
+        'setitem', 'slice-same', 'reverse', 'append', 'insert', 'extend',
+        'iadd', 'slice-grow', 'clear-extend', 'pop', 'del', 'slice-shrink',
+        'sort')},
+    'indep_inplace_times_setitem': 100, 'indep_inplace_curves_setitem': 20,
     'conc_rounds': 300, 'conc_rounds_with_overlapping_builders': 100,
     'conc_cache_rechecks': 300, 'conc_injected_yields': 100,
     'sig_cases': 1500, 'sig_defs_decoded': 1000, 'sig_defs_agreeing': 800,
@@ -177,9 +227,9 @@ def plan(tier, seed):
     if tier == 'quick':
         n_env, n_ctor, parts, secs = 30000, 12000, 6, 40
     else:
-        # 16 shards in all (7 env, 2 ctor, 3 reuse, 2 conc, 2 sig): one wave of
+        # 16 shards in all (6 env, 2 ctor, 3 reuse, 1 indep, 2 conc, 2 sig): one wave of
         # the driver's 16 workers, so the wall time is one time budget
-        n_env, n_ctor, parts, secs = 7_000_000, 2_000_000, 7, 560
+        n_env, n_ctor, parts, secs = 7_000_000, 2_000_000, 6, 560
     shards = []
     for p, (f, n) in enumerate(split(n_env, parts)):
         shards.append({'name': f'env{p}', 'mode': 'nrt', 'kind': 'env',
@@ -194,6 +244,12 @@ def plan(tier, seed):
     n_reuse, rparts = (9000, 3) if tier == 'quick' else (1_500_000, 3)
     for p, (f, n) in enumerate(split(n_reuse, rparts)):
         shards.append({'name': f'reuse{p}', 'mode': 'nrt', 'kind': 'reuse',
+                       'first_case': f, 'n': n, 'secs': secs,
+                       'hard_timeout': secs + 120})
+    # independence of objects built with defaulted arguments (run_indep)
+    n_ind, iparts = (5000, 1) if tier == 'quick' else (1_000_000, 1)
+    for p, (f, n) in enumerate(split(n_ind, iparts)):
+        shards.append({'name': f'indep{p}', 'mode': 'nrt', 'kind': 'indep',
                        'first_case': f, 'n': n, 'secs': secs,
                        'hard_timeout': secs + 120})
     # one multichannel Env shared by threads that use it for the first time
@@ -240,6 +296,9 @@ def run_shard(spec, acc):
     if kind == 'reuse':
         from vf.c19_reuse import run_reuse
         run_reuse(spec, acc)
+    elif kind == 'indep':
+        from vf.c19_reuse import run_indep
+        run_indep(spec, acc)
     elif kind == 'conc':
         from vf.c19_conc import run_conc
         run_conc(spec, acc)
